@@ -47,7 +47,8 @@ PROPS["C02"] = dict(
                "discharged by z3/cvc5; an end-to-end run on real temp files stands beside it (bounded).",
     level_note="Trusted: file model (A-fs-1 size unchanged between stat and read; A-fs-2 regular-file reads are not short; "
                "A-zc zero-copy server semantics); the server's send/start_response do not raise (A-server); list_headers "
-               "returns the header map's items (A-list-headers; its body is checked bounded in C05/C13); "
+               "returns the header map's items (A-list-headers: the call-site summary; the real body is verified against a "
+               "concrete list by the contract list_headers[body] of C05/C13); "
                "StatusStringMapping[c] is the table entry (A-status-table); etag/httpdate uninterpreted (A-sha-1, A-fmt-1); "
                "random boundary alphabet (A-random); run_in_threadpool(f,*a) == f(*a) (A-conc-1); fold extensionality "
                "(A-fold-ext); await erased (no interleaving); closing of the file object by `with` is not modelled (WSGI). "
@@ -86,7 +87,7 @@ PROPS["C05"] = dict(
                "asgi.StreamingResponse.__call__", "Headers.__init__", "MutableHeaders.__setitem__",
                "wsgi.handle_all", "wsgi.handle_single_range", "wsgi.handle_several_ranges", "wsgi.FileResponse.__call__",
                "asgi.fake_sendfile", "asgi.zerocopy_sendfile", "asgi.handle_all", "asgi.handle_single_range",
-               "asgi.handle_several_ranges", "asgi.FileResponse.__call__"],
+               "asgi.handle_several_ranges", "asgi.FileResponse.__call__", "list_headers[body]"],
     refute={"quick": [2], "thorough": [1, 2, 3]},
     native="c05",
     level="proof",
@@ -100,7 +101,8 @@ PROPS["C05"] = dict(
                "Obligations are generated from the real ASTs and discharged by z3/cvc5; the recording-server run over all "
                "response classes with injected faults stands beside it (bounded), including the exhaustive status table.",
     level_note="Trusted: the server's send/start_response do not raise (A-server); list_headers emits the header map's items and "
-               "one set-cookie line per cookie (A-list-headers; checked bounded); header map values stay clean through "
+               "one set-cookie line per cookie (the call-site summary A-list-headers abstracts the contract list_headers[body], "
+               "which verifies the real body: exactly the mapping's items, then one set-cookie line per cookie, in order); header map values stay clean through "
                "MutableHeaders.__setitem__ (proved, C13) but constructor-supplied header maps are an input; "
                "StatusStringMapping (A-status-table: validated exhaustively over 100..999 on every run); await erased, "
                "one task (the watcher only flips the volatile flag); the SSE / Stream render_stream producers (threads, queues) "
@@ -166,7 +168,7 @@ PROPS["C13"] = dict(
     modules=["common", "hdrs", "c03", "c02", "c05", "c13"],
     contracts=["MutableHeaders.__setitem__", "MutableHeaders.__delitem__", "MutableHeaders.append", "Headers.__getitem__",
                "Headers.__init__", "cookie.table", "Cookie._quote", "Cookie.__str__",
-               "wsgi.RedirectResponse.__init__", "asgi.RedirectResponse.__init__"],
+               "wsgi.RedirectResponse.__init__", "asgi.RedirectResponse.__init__", "list_headers[body]"],
     no_refute=["cookie.table"],
     refute={"quick": [2], "thorough": [1, 2, 3]},
     native="c13",
@@ -185,7 +187,8 @@ PROPS["C13"] = dict(
                "__delitem__ (A-abc-1); re fullmatch (A-re-2); str.translate is the character-wise homomorphism of the table "
                "(A-translate); urllib.parse.quote emits only unreserved/safe/%HH (A-quote-1); strftime output (A-time-1); "
                "cookie attributes path/domain/samesite are required clean (not sources of C13); list_headers' body "
-               "(map items + one set-cookie line per cookie) is covered by the bounded layer; Headers.__init__ does not "
+               "is verified by the contract list_headers[body] (exactly the mapping's items, then one set-cookie line per cookie "
+               "carrying str(cookie), nothing else); Headers.__init__ does not "
                "filter constructor-supplied maps (an input of the property).",
     technique="deductive verification: class invariant of the header mapping, exhaustive finite table lemma, string-level contracts for cookie quoting, SMT (z3/cvc5)",
     explanation="",
@@ -412,8 +415,9 @@ PROPS["C07"] = dict(
     level_note="Trusted (and carrying most of the weight): os.path.join/abspath are functions of their arguments (A-path-1); "
                "relpath(p, d) is '..' or starts with '../' exactly when p is neither d nor below d (A-path-2); POSIX "
                "separator (A-posix); os.stat raises only FileNotFoundError / NotADirectoryError for request-dependent "
-               "reasons (A-stat); the configured directory is absolute, normalised, not the root, and exists (A-dir-exists: without "
-               "it Pages would stat '<directory>.html' for the request path ''). Calling the response object is recorded, "
+               "reasons (A-stat); the configured directory is absolute, normalised and not the root (it need not exist: the "
+               "assumption A-dir-exists of the first version is gone since fix 432d0cc keeps the '.html' fallback away from "
+               "'<directory>.html'). Calling the response object is recorded, "
                "not executed (its emissions are C02 / C05 / C14). Symbolic links inside the directory are followed (out of scope).",
     technique="deductive verification relative to assumed posixpath contracts (string theory); bounded run on a real tree with an audit hook and a lexical reference resolver",
     explanation="proved (relative to A-path-*): confinement and completeness of ensure_absolute_path, Pages index mapping, "
